@@ -26,10 +26,10 @@ type Options struct {
 	Order   verifsched.Choice
 	Deviate map[int]verifsched.Choice
 	Fuel    int64
-	Record  bool // record map-range visits
-	Debug   bool // utils.DebugFlags (the `debug` command)
-	Unpack  bool // -u
-	Object  bool // -o
+	Record  bool   // record map-range visits
+	Debug   bool   // utils.DebugFlags (the `debug` command)
+	Unpack  bool   // -u
+	Object  bool   // -o
 	Dot     string // -g <path>: also draw the automaton (the external dot program is not installed; the graph text is printed)
 }
 
